@@ -20,7 +20,7 @@ EXPLANATION = (
     "(index has key 0 / non-empty) or the creating branch of initialise() writes one; R27.2 at `_index.insert` in initialise() the "
     "result of read(_iod,&rec,sizeof rec) is proven == sizeof rec by dominating guards; R27.3 put(seq,bytes): write(data) ≺ "
     "write(index) ≺ _index.insert, both writes compared against their full length with failure returning false; the offset stored is "
-    "the data file's end before the write; R27.4 control put: lseek(_iod,0,SEEK_SET) ≺ single write(sizeof(IPrec)). R27.5 every tested lseek result in FilePersister counts only a negative value as failure; R27.6 in the index replay of initialise() no test on the record's offset/size fields can keep a complete record out of the index. NOT decided: "
+    "the data file's end before the write; R27.4 control put: lseek(_iod,0,SEEK_SET) ≺ single write(sizeof(IPrec)). R27.5 every tested lseek result in FilePersister counts only a negative value as failure; R27.6 in the index replay of initialise() no test on the record's offset/size fields can keep a complete record out of the index. R27.7 no open() of the store files carries O_APPEND (the control record is rewritten in place). NOT decided: "
     "enumeration of crash points × operation sequences.")
 
 F = 'FIX8::FilePersister::'
@@ -64,6 +64,35 @@ def write_sites(prog, fn):
                     out.append(WSite(c, c.args[h.param_ids.index(fdp.declid)], ws[0].args[2], h))
             break
     return out
+
+
+def positioned_writes_rule(ctx, prog, RID):
+    """the store addresses its writes: the control record is rewritten at offset 0 (lseek + write) and every record offset is the seek result the data write
+    follows.  A descriptor opened with O_APPEND ignores the position on every write, so the open() calls of the index file may not carry that flag."""
+    O_APPEND = 0o2000
+    n = 0
+    for g in prog.all_functions():
+        if not (g.rec or '').endswith('FilePersister'):
+            continue
+        for c in g.calls():
+            if c.callee_qp != 'open' or len(c.args) < 2:
+                continue
+            # only the INDEX file is rewritten in place (the data file is always written at its end: O_APPEND there changes nothing)
+            asg = [a for a in c.ancestors() if a.k == 'BinaryOperator' and a.op == '=' and q.refers_to_member(a.children[0].strip(casts=True), F + '_iod')]
+            if not asg:
+                continue
+            n += 1
+            fl = c.args[1].strip(casts=True).value
+            if fl is None:
+                fl = q.eval_int(c.args[1], {})
+            if fl is None:
+                raise AnalysisBroken('%s: flags of `%s` are not a constant' % (g.q, c.text()[:80]))
+            ctx.check(not (fl & O_APPEND), RID, '%s#open-positioned@%d' % (g.qp, c.line), c.loc,
+                      'the store file is opened without O_APPEND (flags 0%o): lseek positions its writes' % fl,
+                      '`%s` opens a store file with O_APPEND: every write then goes to the end of the file whatever lseek said, so the in-place rewrite of the control '
+                      'record (lseek(_iod, 0, SEEK_SET) + write) appends instead — slot 0 keeps the numbers of the first run and the next start recovers stale sequence '
+                      'numbers' % c.text()[:90])
+    ctx.need(n >= 2, 'fewer than 2 open() calls of the index file found in FilePersister (%d)' % n)
 
 
 def append_rule(ctx, put, data_write, RID):
@@ -258,5 +287,7 @@ def run(ctx):
               'no test on a record\'s offset/size fields can keep a complete index record out of the replayed index (%d such test(s))' % len(content),
               'when `%s` is %s the record just read is not inserted into the index: the control record keeps the TARGET sequence number in its size field, so a '
               'control record with a large number is dropped on reopen and get(sender, target) fails' % (dropped[0].text() if dropped else '', dropped[1] if dropped else ''))
+    positioned_writes_rule(ctx, prog, 'R27.7')
+    ctx.floor('R27.7', 2)
     ctx.floor('R27.3', 5)
     ctx.floor('R27.4', 3)
